@@ -33,7 +33,7 @@ def h5_case(draw):
         n, p1, p2 = [], [], []
         for _ in range(nd):
             c = draw(st.integers(1, 3))
-            k = draw(gen.nvdim_strategy())
+            k = draw(st.integers(1, 4))
             off = draw(st.integers(-6, 6))
             mult = draw(st.sampled_from([2, 4])) if typing == "int-fractional-subs" else 1
             n.append(k * mult)
@@ -48,7 +48,15 @@ def h5_case(draw):
     bc = "" if bck == 0 else "neumann" if bck == 1 else "dirichlet" if bck == 2 else "".join(d for d in single if draw(st.booleans()))
     k = draw(gen.nvdim_strategy())
     labels = draw(st.sampled_from(["default", "custom", "absent"]))
-    return {"g": g, "typing": typing, "subs": draw(gen.index_boxes(g["n"], 3)), "sub_typing": draw(st.sampled_from(["float", "int", "natural"])),
+    subs = draw(gen.index_boxes(g["n"], 3))
+    sub_typing = draw(st.sampled_from(["float", "int", "natural", "natural"]))
+    if typing == "int-fractional-subs" and draw(st.integers(0, 2**20)) * 2654435761 % 2**32 >> 31:
+        # by construction: a subregion starting one (fractional) cell inside first, the whole region - whole-number corners,
+        # integer-typed - last
+        subs = [["inner", [min(1, m - 1) for m in g["n"]], list(g["n"])]] + subs[:1] + [["whole", [0] * nd, list(g["n"])]]
+        subs = [s_ for i, s_ in enumerate(subs) if s_[0] not in [t[0] for t in subs[:i]]]
+        sub_typing = "natural"
+    return {"g": g, "typing": typing, "subs": subs, "sub_typing": sub_typing,
             "bc": bc, "k": k, "labels": labels, "vdims": draw(gen.vdims_strategy(k, default_ok=False)) if labels == "custom" else None,
             "unit": draw(st.sampled_from(gen.FIELD_UNITS)), "dtype": draw(st.sampled_from(["float", "float", "complex", "int"])),
             "seed": draw(st.integers(0, 2**31)), "mask": draw(gen.mask_spec(nd)), "ext": draw(st.sampled_from([".h5", ".hdf5"])),
@@ -65,7 +73,14 @@ def build(case):
     region = gen.build_region(g)
     sr = {}
     lat = gen.lattice_of(g)
-    for name, lo, hi in case["subs"]:
+    subs_ = list(case["subs"])
+    if case["seed"] % 2 == 0:
+        # subregions with whole-number corners last (they may be integer-typed while earlier ones are fractional)
+        def _integral(s_):
+            return all(lat.vertex(d, s_[1][d]).denominator == 1 and lat.vertex(d, s_[2][d]).denominator == 1
+                       for d in range(lat.ndim))
+        subs_.sort(key=_integral)
+    for name, lo, hi in subs_:
         a = [lat.vertex(d, lo[d]) for d in range(lat.ndim)]
         b = [lat.vertex(d, hi[d]) for d in range(lat.ndim)]
         integral = all(x.denominator == 1 for x in a + b)
@@ -123,6 +138,11 @@ def check_roundtrip(case):
                                      subregions={"old": df.Region(p1=(0,) * nd_, p2=(1,) * nd_)}), nvdim=2, value=(1, 2))
             other.to_file(path)
             df.Field.from_file(path)
+            if case["seed"] % 2:
+                # ... and a subregion side-car of that name lies next to it (Mesh.save_subregions, an older library):
+                # HDF5 files carry their subregions themselves
+                other.mesh.save_subregions(path)
+                tag("stale-side-car")
             tag("overwritten-path")
         f.to_file(gen.path_arg(path, case["seed"]))
         if case.get("read_twice"):
